@@ -168,6 +168,7 @@ func init() {
 			{Name: "fieldlens", TShards: 4, Run: lengthUnit("sam")},
 			{Name: "parallel", Race: true, Run: codecParallel("sam", "samh")},
 			{Name: "histories", Run: codecHistories("sam", "samh")},
+			{Name: "readerzoo", TShards: 4, Run: zooUnit("sam", "samh")},
 			firstCallUnit(append(firstCodec("sam"), firstCodec("samh")...)),
 		},
 	})
